@@ -162,6 +162,11 @@ def flows_oracle(ctx):
                     back = np.asarray(b(mid, c), dtype=float)
                 except NotImplementedError:
                     continue
+                except Exception as e:  # a bijection that raises on a valid input of its own domain does not invert it
+                    ctx.violation(sig=f"flow:{name}:{direction}:raised", what=f"{name} (dim {dim}, cond {cond}): {direction} round trip raised {type(e).__name__}: {str(e)[:120]} at x={np.ravel(x).tolist()}",
+                                  case=dict(flow=name, dim=dim, cond=cond, direction=direction, x=[fhex(v) for v in np.ravel(x)]), found_input=True,
+                                  unit=uf.name, expected="x", observed=type(e).__name__, broken="round-trip oracle on flow.bijection")
+                    continue
                 uf.count((name, dim, cond, direction, [fhex(v) for v in np.ravel(x)]), nontrivial=True, tag=name)
                 if not np.all(np.isfinite(np.asarray(mid))):
                     continue
